@@ -312,7 +312,7 @@ def _g(prefix, pairs):
 QUICK = {
     'C01': ['c01_try_unchecked_w_ep', 'c01_try_unchecked_b_ep', 'c01_validate_w_ep', 'c06_semilegal_validator_w_castling',
             'c06_semilegal_validator_w_ep', 'c06_semilegal_validator_b_ep'],
-    'C02': ['c02_make_raw_step_w_castling', 'c02_make_raw_step_b_ep', 'c09_san_simple_pawn_refused', 'c10_uci_parse_exact', 'c13_chain_push_pop_s1_p0_ep'],
+    'C02': ['c02_make_raw_step_w_castling', 'c02_make_raw_step_b_pspecial', 'c09_san_simple_pawn_refused', 'c10_uci_parse_exact', 'c13_chain_push_pop_s1_p0_ep'],
     'C03': _g('c03_make_unmake', [('w', 'ep'), ('b', 'ep'), ('w', 'castling'), ('b', 'pspecial'), ('b', 'king'), ('w', 'queen')]),
     'C04': _g('c03_make_unmake', [('w', 'null'), ('b', 'null'), ('b', 'castling'), ('w', 'pspecial'), ('b', 'ep'), ('w', 'rook')]),
     'C05': ['c05_hash_features', 'c05_scratch_hash_def'] + _g('c05_hash_delta', [('w', 'castling'), ('b', 'ep'), ('w', 'pspecial'), ('b', 'null')])
@@ -332,9 +332,9 @@ QUICK = {
     'C16': ['c16_attackers_exact_w_by_white', 'c16_attackers_exact_w_by_black', 'c16_attackers_exact_b_by_white', 'c16_attackers_exact_b_by_black',
             'c16_check_queries_exact_w'],
     'C17': ['c17_walker_s0_p3_concrete_1_2'],
-    'C18': ['c18_mirror_move_v_w_castling', 'c18_mirror_outcome_h_b'],
-    'C19': ['c15_bishop_exact', 'c05_scratch_hash_def', 'c16_attackers_exact_w_by_black', 'c06_semilegal_validator_b_castling', 'c06_semilegal_validator_w_ep',
-            'c03_make_unmake_b_pspecial'],
+    'C18': ['c18_mirror_move_v_w_castling', 'c18_mirror_outcome_v_w'],
+    'C19': ['c15_bishop_exact', 'c16_attackers_exact_w_by_black', 'c06_semilegal_validator_b_castling', 'c06_semilegal_validator_w_ep',
+            'c03_make_unmake_b_pspecial', 'c11_validate_accept_b'],
 }
 # ---------------------------------------------------------------- thorough tier: fixed sets per property (patterns)
 # sized to finish within roughly 60-120 min on 16 cores / 62 GB (memory, not cores, is the limit); what a property's
